@@ -23,6 +23,11 @@ for nl, nc, fin, ml, gifull, mainnet, symidx, lidx, ridx, tiers in CASES:
         params={"NL": nl, "NC": nc, "FIN": fin, "ML": ml, "GIFULL": gifull, "MAINNET": mainnet, "SYMIDX": symidx, "LIDX": lidx, "RIDX": ridx},
         tiers=tiers, reach=["built"], time_limit_s=3000,
         bounds="all exit fields, all 64 proof siblings per claim, all L1 leaf contents; syncer behind / level / ahead of the finalized block, same or another fork"))
+for _nl, _t in ((3, ("quick", "thorough")), (4, ("thorough",)), (5, ("thorough",))):
+    OBLIGATIONS.append(dict(
+        name="C09 the same querier proves exit roots against two successive L1 info roots of a %d-leaf tree (possibly the same exit root twice): each proof verifies against the root asked for" % _nl,
+        harness=F + "ZZVerif_C09_TwoRoots", params={"NL": _nl}, tiers=_t, reach=["both", "same exit root twice"], time_limit_s=1500,
+        bounds="every pair of roots (a < b), every pair of leaves under them, all leaf contents"))
 ASSUMPTIONS = ["the L1 info tree syncer answers as C08/C11 establish for the real one (fake in the harness: proofs computed by a reference Merkle routine)",
                "each claim was accepted by the L2 bridge contract (its proofs lead to the exit roots of the L1 info leaf whose global exit root it names)",
                "Keccak as uninterpreted function; global exit roots pairwise distinct", "block hash as uninterpreted function of the header"]
